@@ -252,15 +252,19 @@ def registered_later(ctx):
     re-registered; every unit has a default category *now*, so every form must build, and build equal objects."""
     from barril.units import Scalar, UnitDatabase
 
-    for order in ("questions before the categories", "categories first", "a category registered again"):
+    for order in ("questions before the categories", "categories first", "a category registered again", "the same definitions registered again"):
         db = UnitDatabase()
         with table.pushed(db):
             db.AddUnitBase("length", "metre", "m")
             db.AddUnit("length", "centimetre", "cm", "%f*100.0", "%f/100.0")
             db.AddUnitBase("time", "second", "s")
             db.AddUnit("time", "minute", "min", "%f/60.0", "%f*60.0", default_category="duration")
+            # a symbol that reads like a legacy spelling of something else, registered as a unit of its own
+            db.AddUnitBase("dynamic viscosity", "pascal second", "Pa.s")
+            db.AddUnit("dynamic viscosity", "newton second per square metre (old symbol)", "Ns/m2", "%f*2.0", "%f/2.0")
             if order == "questions before the categories":
-                for u in ("m", "cm", "s", "min"):
+                # (no unit is registered after the questions: a later AddUnit may reset what the questions left behind)
+                for u in ("m", "cm", "s", "min", "Ns/m2"):
                     ctx.ev()
                     try:
                         db.GetDefaultCategory(u)
@@ -270,12 +274,41 @@ def registered_later(ctx):
             db.AddCategory("length", "length")
             db.AddCategory("time", "time")
             db.AddCategory("duration", "time", valid_units=["min", "s"], default_unit="min")
+            db.AddCategory("dynamic viscosity", "dynamic viscosity")
+            pairs = (("m", "length"), ("cm", "length"), ("s", "time"), ("min", "duration"), ("Ns/m2", "dynamic viscosity"), ("Pa.s", "dynamic viscosity"))
+            kept = []
+            if order == "the same definitions registered again":
+                # objects built before a registration that changes no definition are equal to the same forms built after it
+                def build_all(u, c):
+                    out = []
+                    for n, f in scalar_forms(u, c, 1.0, True) + array_forms(u, c, [1.0, 2.0, 3.0], "list", True)[0]:
+                        try:
+                            out.append((n, f()))
+                        except Exception as e:
+                            ctx.violation("hand-built:form-raised:%s:%s" % (n, type(e).__name__), {"unit": u, "category": c, "form": n, "error": str(e)[:160]})
+                    return out
+
+                for u, c in pairs:
+                    kept.append((u, c, build_all(u, c)))
+                db.AddCategory("length", "length", override=True)
+                db.AddCategory("time", "time", override=True)
+                db.AddCategory("duration", "time", valid_units=["min", "s"], default_unit="min", override=True)
+                db.AddCategory("dynamic viscosity", "dynamic viscosity", override=True)
+                for u, c, before in kept:
+                    after = dict(build_all(u, c))
+                    for n, o in before:
+                        ctx.ev()
+                        if n not in after:
+                            continue
+                        why = same(o, after[n])
+                        if why:
+                            ctx.violation("hand-built:object-built-before-an-unchanged-re-registration-differs-from-the-one-built-after", {"unit": u, "category": c, "form": n, "before": repr(o)[:100], "after": repr(after[n])[:100], "why": why})
             if order == "a category registered again":
                 for u in ("m", "cm", "s", "min"):
                     Scalar(1.0, u)
                 db.AddCategory("length", "length", override=True, default_unit="cm")
                 db.AddCategory("duration", "time", override=True)
-            for u, c in (("m", "length"), ("cm", "length"), ("s", "time"), ("min", "duration")):
+            for u, c in pairs:
                 for v in (1.0, -2.5):
                     case = {"database": "hand-built", "order": order, "unit": u, "category": c, "value": v}
                     ctx.nt(("hand-built", order, u))
